@@ -1691,6 +1691,8 @@ fn c05_family(tier: &str) -> Vec<(String, Instance)> {
             vec![frq(n(FR), Some(n(FR)))],
             vec![frq(n(2 * FR), None), frq(n(FR), Some(n(FR)))],
             vec![frq(Amt::All, None), frq(n(FR), None)],
+            // `all` of a resource that some workers do not have at all
+            vec![frq(n(FR), Some(Amt::All))],
         ];
         if thorough {
             classes.extend([
@@ -1698,7 +1700,6 @@ fn c05_family(tier: &str) -> Vec<(String, Instance)> {
                 vec![frq(Amt::All, Some(n(FR)))],
                 vec![frq(n(2 * FR), Some(n(2 * FR)))],
                 vec![frq(n(FR + h), Some(n(FR))), frq(n(h), None)],
-                vec![frq(n(FR), Some(Amt::All))],
             ]);
         }
         let gpus: &[u32] = if thorough { &[0, 1, 2] } else { &[0, 1] };
